@@ -1,473 +1,36 @@
 #!/usr/bin/env python3
-"""Translator: /repo source + data  ->  /verif/lean/Chewing/Gen/*.lean
+"""Translator: $VERIF_REPO (default /repo) source + data  ->  /verif/lean/Chewing/Gen/*.lean
 
-Not a Rust-to-Lean compiler.  It recognises a fixed list of syntactic shapes
-(enum declarations, `const NAME: [T; N] = [...]`, `match` arms inside a named
-fn, binary-literal masks inside named fns, ...) and emits Lean `def`s over
-Nat / Char / List.  It is run at the start of every check, so every table
-theorem in Chewing/Props is re-elaborated against what the source says *now*.
+Not a Rust-to-Lean compiler.  Each extractor (tools/extractors/*.py, registered with
+`@extractor("name")`) recognises a fixed list of syntactic shapes (enum declarations,
+`const NAME: [T; N] = [...]`, `match` arms inside a named fn, binary-literal masks, ...) and emits
+Lean `def`s over Nat / Char / List.  Run at the start of every check, so every table theorem in
+Chewing/Props is re-elaborated against what the source says *now*.
 
-Each extractor is independent; one that no longer recognises its source shape
-is reported in Gen/status.json as broken (the tie for the properties that use
-it is then broken; the previous Gen file is left in place so the rest of the
-project still builds).
+    extract.py [name …]        (no names = all)
+
+An extractor that no longer recognises its source shape is reported in Gen/status.json as broken
+(the tie for the properties that use it is then broken; the previous Gen file is left in place
+so the rest of the project still builds).  Exit status 2 if any extractor is broken.
 """
-import hashlib, json, os, re, sys, traceback
+import glob, importlib.util, json, os, sys, traceback
 
-REPO = os.environ.get("VERIF_REPO", "/repo")
-OUT = os.path.join(os.path.dirname(os.path.abspath(__file__)), "..", "lean", "Chewing", "Gen")
-OUT = os.path.normpath(OUT)
+HERE = os.path.dirname(os.path.abspath(__file__))
+sys.path.insert(0, HERE)
+import extractlib
+from extractlib import EXTRACTORS, OUT, sha
 
-
-class ExtractError(Exception):
-    pass
-
-
-def read(rel):
-    with open(os.path.join(REPO, rel), encoding="utf-8") as f:
-        return f.read()
-
-
-def sha(text):
-    return hashlib.sha256(text.encode("utf-8")).hexdigest()[:16]
-
-
-def strip_comments(src):
-    """Remove // line comments and /* */ block comments, respecting string/char literals."""
-    out = []
-    i, n = 0, len(src)
-    while i < n:
-        c = src[i]
-        if c == '/' and i + 1 < n and src[i + 1] == '/':
-            j = src.find('\n', i)
-            if j < 0:
-                j = n
-            i = j
-            continue
-        if c == '/' and i + 1 < n and src[i + 1] == '*':
-            depth, i = 1, i + 2
-            while i < n and depth:
-                if src.startswith('/*', i):
-                    depth += 1; i += 2
-                elif src.startswith('*/', i):
-                    depth -= 1; i += 2
-                else:
-                    i += 1
-            continue
-        if c == '"':
-            j = i + 1
-            while j < n and src[j] != '"':
-                j += 2 if src[j] == '\\' else 1
-            out.append(src[i:j + 1]); i = j + 1
-            continue
-        if c == "'":
-            # char literal or lifetime
-            m = re.match(r"'(\\.[^']*|[^'\\])'", src[i:])
-            if m:
-                out.append(m.group(0)); i += len(m.group(0))
-                continue
-        out.append(c); i += 1
-    return ''.join(out)
-
-
-def balanced(src, start, open_ch='{', close_ch='}'):
-    """src[start] must be open_ch; return index just after the matching close, skipping literals."""
-    assert src[start] == open_ch, (src[start:start + 20],)
-    depth, i, n = 0, start, len(src)
-    while i < n:
-        c = src[i]
-        if c == '"':
-            j = i + 1
-            while j < n and src[j] != '"':
-                j += 2 if src[j] == '\\' else 1
-            i = j + 1
-            continue
-        if c == "'":
-            m = re.match(r"'(\\.[^']*|[^'\\])'", src[i:])
-            if m:
-                i += len(m.group(0))
-                continue
-        if c == open_ch:
-            depth += 1
-        elif c == close_ch:
-            depth -= 1
-            if depth == 0:
-                return i + 1
-        i += 1
-    raise ExtractError("unbalanced braces")
-
-
-def block_after(src, pattern, flags=0, open_ch='{', close_ch='}'):
-    """Text of the first balanced block that follows the first match of `pattern`."""
-    m = re.search(pattern, src, flags)
-    if not m:
-        raise ExtractError(f"pattern not found: {pattern}")
-    i = src.find(open_ch, m.end() - 1 if src[m.end() - 1] == open_ch else m.end())
-    if i < 0:
-        raise ExtractError(f"no block after: {pattern}")
-    j = balanced(src, i, open_ch, close_ch)
-    return src[i + 1:j - 1]
-
-
-def fn_body(src, name, after=None):
-    """Body of `fn name(` ; if `after` is given, search only after the first match of that regex."""
-    base = 0
-    if after is not None:
-        m = re.search(after, src)
-        if not m:
-            raise ExtractError(f"anchor not found: {after}")
-        base = m.end()
-    m = re.search(r"\bfn\s+" + re.escape(name) + r"\s*(<[^>]*>)?\s*\(", src[base:])
-    if not m:
-        raise ExtractError(f"fn {name} not found")
-    # skip the parameter list, then find the body's opening brace
-    p = base + m.end() - 1
-    q = balanced(src, p, '(', ')')
-    i = src.find('{', q)
-    j = balanced(src, i)
-    return src[i + 1:j - 1]
-
-
-def split_top(s, sep=','):
-    """Split on sep at nesting depth 0 (parentheses, brackets, braces), skipping literals."""
-    parts, depth, cur, i, n = [], 0, [], 0, len(s)
-    while i < n:
-        c = s[i]
-        if c == '"':
-            j = i + 1
-            while j < n and s[j] != '"':
-                j += 2 if s[j] == '\\' else 1
-            cur.append(s[i:j + 1]); i = j + 1
-            continue
-        if c == "'":
-            m = re.match(r"'(\\.[^']*|[^'\\])'", s[i:])
-            if m:
-                cur.append(m.group(0)); i += len(m.group(0))
-                continue
-        if c in '([{':
-            depth += 1
-        elif c in ')]}':
-            depth -= 1
-        if c == sep and depth == 0:
-            parts.append(''.join(cur)); cur = []
-        else:
-            cur.append(c)
-        i += 1
-    if ''.join(cur).strip():
-        parts.append(''.join(cur))
-    return [p.strip() for p in parts]
-
-
-def match_arms(body):
-    """[(pattern_text, expr_text)] of the (single, outermost) `match … { … }` found in body,
-    or of body itself if it already is a list of arms."""
-    m = re.search(r"\bmatch\b[^{]*\{", body)
-    if m:
-        i = body.find('{', m.start())
-        j = balanced(body, i)
-        body = body[i + 1:j - 1]
-    arms = []
-    for part in split_top(body, ','):
-        if '=>' not in part:
-            continue
-        # a block-bodied arm may be followed by the next arm without a comma: handle `} pat =>`
-        pat, expr = part.split('=>', 1)
-        arms.append((pat.strip(), expr.strip()))
-    return arms
-
-
-def rust_char(lit):
-    lit = lit.strip()
-    if not (lit.startswith("'") and lit.endswith("'")):
-        raise ExtractError(f"not a char literal: {lit}")
-    s = lit[1:-1]
-    if s.startswith('\\'):
-        esc = {'n': '\n', 't': '\t', 'r': '\r', '0': '\0', '\\': '\\', "'": "'", '"': '"'}
-        if s[1] in esc and len(s) == 2:
-            return esc[s[1]]
-        m = re.match(r"\\u\{([0-9a-fA-F_]+)\}$", s)
-        if m:
-            return chr(int(m.group(1).replace('_', ''), 16))
-        m = re.match(r"\\x([0-9a-fA-F]{2})$", s)
-        if m:
-            return chr(int(m.group(1), 16))
-        raise ExtractError(f"unknown escape: {lit}")
-    if len(s) != 1:
-        raise ExtractError(f"bad char literal: {lit}")
-    return s
-
-
-def rust_int(lit):
-    lit = lit.strip().replace('_', '')
-    lit = re.sub(r"(u8|u16|u32|u64|usize|i8|i16|i32|i64|isize)$", "", lit)
-    if lit.startswith('0b'):
-        return int(lit[2:], 2)
-    if lit.startswith('0x'):
-        return int(lit[2:], 16)
-    if lit.startswith('0o'):
-        return int(lit[2:], 8)
-    return int(lit)
-
-
-def lean_char(c):
-    return f"Char.ofNat {ord(c)}"
-
-
-def lean_list(items, per_line=12):
-    items = list(items)
-    if not items:
-        return "[]"
-    lines = []
-    for i in range(0, len(items), per_line):
-        lines.append(", ".join(items[i:i + per_line]))
-    return "[" + ",\n   ".join(lines) + "]"
-
-
-def lean_str(s):
-    out = []
-    for ch in s:
-        if ch == '"':
-            out.append('\\"')
-        elif ch == '\\':
-            out.append('\\\\')
-        elif ch == '\n':
-            out.append('\\n')
-        elif ch == '\t':
-            out.append('\\t')
-        elif ord(ch) < 32 or ord(ch) == 127:
-            out.append('\\x%02x' % ord(ch))
-        else:
-            out.append(ch)
-    return '"' + ''.join(out) + '"'
-
-
-HEADER = "-- GENERATED by /verif/tools/extract.py from {src} (sha256/16 {h}). Do not edit.\n"
-
-# --------------------------------------------------------------------------
-# Bopomofo tables (src/zhuyin/bopomofo.rs)
-# --------------------------------------------------------------------------
-
-def enum_variants(src, name):
-    body = block_after(src, r"\benum\s+" + re.escape(name) + r"\b")
-    vs = []
-    for part in split_top(body, ','):
-        part = re.sub(r"#\[[^\]]*\]", "", part).strip()
-        if not part:
-            continue
-        m = re.match(r"([A-Za-z_][A-Za-z0-9_]*)", part)
-        if not m:
-            raise ExtractError(f"bad variant in enum {name}: {part!r}")
-        vs.append(m.group(1))
-    return vs
-
-
-def x_bopomofo():
-    raw = read("src/zhuyin/bopomofo.rs")
-    src = strip_comments(raw)
-    variants = enum_variants(src, "Bopomofo")
-    idx = {v: i for i, v in enumerate(variants)}
-    if len(variants) != len(idx):
-        raise ExtractError("duplicate Bopomofo variants")
-
-    def const_map(name):
-        m = re.search(r"const\s+" + name + r"\s*:\s*\[\s*Bopomofo\s*;\s*(\d+)\s*\]\s*=\s*\[", src)
-        if not m:
-            raise ExtractError(f"{name} not found")
-        i = m.end() - 1
-        j = balanced(src, i, '[', ']')
-        items = split_top(src[i + 1:j - 1], ',')
-        if len(items) != int(m.group(1)):
-            raise ExtractError(f"{name}: declared length differs")
-        return [idx[x] for x in items]
-
-    maps = {n: const_map(n) for n in ("INITIAL_MAP", "MEDIAL_MAP", "RIME_MAP", "TONE_MAP")}
-
-    kinds = {"Initial": 0, "Medial": 1, "Rime": 2, "Tone": 3}
-    kind_tbl = [None] * len(variants)
-    for pat, expr in match_arms(fn_body(src, "kind", after=r"impl\s+Bopomofo\s*\{")):
-        k = kinds[expr.split("::")[-1].strip()]
-        for v in pat.split('|'):
-            kind_tbl[idx[v.strip()]] = k
-    index_tbl = [None] * len(variants)
-    for pat, expr in match_arms(fn_body(src, "index", after=r"impl\s+Bopomofo\s*\{")):
-        for v in pat.split('|'):
-            index_tbl[idx[v.strip()]] = rust_int(expr)
-    if None in kind_tbl or None in index_tbl:
-        raise ExtractError("kind()/index() not total")
-
-    char_tbl = [None] * len(variants)
-    for pat, expr in match_arms(fn_body(src, "from", after=r"impl\s+From<Bopomofo>\s+for\s+char")):
-        for v in pat.split('|'):
-            char_tbl[idx[v.strip()]] = rust_char(expr)
-    if None in char_tbl:
-        raise ExtractError("From<Bopomofo> for char not total")
-    from_char = []
-    for pat, expr in match_arms(fn_body(src, "try_from", after=r"impl\s+TryFrom<char>\s+for\s+Bopomofo")):
-        if pat.strip() == '_':
-            continue
-        m = re.match(r"Ok\(\s*([A-Z0-9]+)\s*\)", expr)
-        if not m:
-            raise ExtractError(f"TryFrom<char>: unexpected arm {pat} => {expr}")
-        for p in pat.split('|'):
-            from_char.append((rust_char(p), idx[m.group(1)]))
-
-    # the generic index->symbol accessors: `if index as usize >= X_MAP.len() { return None; } Some(X_MAP[index as usize])`
-    for fn, mp in (("from_initial", "INITIAL_MAP"), ("from_medial", "MEDIAL_MAP"),
-                   ("from_rime", "RIME_MAP"), ("from_tone", "TONE_MAP")):
-        b = re.sub(r"\s+", "", fn_body(src, fn))
-        want = f"ifindexasusize>={mp}.len(){{returnNone;}}Some({mp}[indexasusize])"
-        if b != want:
-            raise ExtractError(f"{fn}: unexpected body shape")
-
-    L = [HEADER.format(src="src/zhuyin/bopomofo.rs", h=sha(raw)),
-         "namespace Chewing.Gen\n",
-         "/-- `enum Bopomofo`, declaration order (the discriminant is the list position). -/",
-         f"def bopoNames : List String := {lean_list([lean_str(v) for v in variants])}\n",
-         "/-- `Bopomofo::kind`: 0 initial, 1 medial, 2 rime, 3 tone. -/",
-         f"def bopoKind : List Nat := {lean_list(map(str, kind_tbl), 21)}\n",
-         "/-- `Bopomofo::index` (1-based position inside its kind). -/",
-         f"def bopoIndex : List Nat := {lean_list(map(str, index_tbl), 21)}\n",
-         "/-- `impl From<Bopomofo> for char`, as code points. -/",
-         f"def bopoChar : List Nat := {lean_list([str(ord(c)) for c in char_tbl], 14)}\n",
-         "/-- `impl TryFrom<char> for Bopomofo`: (code point, discriminant), arm order. -/",
-         f"def bopoFromChar : List (Nat × Nat) := {lean_list([f'({ord(c)}, {i})' for c, i in from_char], 8)}\n"]
-    for n, lean in (("INITIAL_MAP", "initialMap"), ("MEDIAL_MAP", "medialMap"),
-                    ("RIME_MAP", "rimeMap"), ("TONE_MAP", "toneMap")):
-        L.append(f"/-- `{n}` (discriminants). -/")
-        L.append(f"def {lean} : List Nat := {lean_list(map(str, maps[n]), 21)}\n")
-    L.append("end Chewing.Gen\n")
-    return {"Bopomofo.lean": "\n".join(L)}
-
-
-# --------------------------------------------------------------------------
-# Syllable bit layout (src/zhuyin/syllable.rs)
-# --------------------------------------------------------------------------
-
-def x_syllable():
-    raw = read("src/zhuyin/syllable.rs")
-    src = strip_comments(raw)
-    impl = block_after(src, r"impl\s+Syllable\s*\{")
-    m = re.search(r"const\s+EMPTY_PATTERN\s*:\s*u16\s*=\s*([0-9a-zA-Z_]+)\s*;", impl)
-    if not m:
-        raise ExtractError("EMPTY_PATTERN not found")
-    empty = rust_int(m.group(1))
-    out = {"emptyPattern": empty}
-    # accessors
-    for fn, frm in (("initial", "from_initial"), ("medial", "from_medial"), ("rime", "from_rime"), ("tone", "from_tone")):
-        b = re.sub(r"\s+", "", fn_body(impl, fn))
-        m = re.match(r"letindex=\(?self\.value\.get\(\)&(0b[01_]+)\)?(?:>>(\d+))?;ifindex==0\{None\}else\{Bopomofo::"
-                     + frm + r"\(index-1\)\}$", b)
-        if not m:
-            raise ExtractError(f"Syllable::{fn}: unexpected body shape")
-        out[fn + "Mask"] = rust_int(m.group(1))
-        out[fn + "Shift"] = int(m.group(2) or 0)
-    # removers
-    for part in ("initial", "medial", "rime", "tone"):
-        b = re.sub(r"\s+", "", fn_body(impl, "remove_" + part))
-        m = re.match(r"letret=self\." + part + r"\(\);letvalue=self\.value\.get\(\)&(0b[01_]+);"
-                     r"self\.value=matchvalue\{0=>Syllable::EMPTY\.value,_=>NonZeroU16::new\(value\)\.unwrap\(\),\};ret$", b)
-        if not m:
-            raise ExtractError(f"Syllable::remove_{part}: unexpected body shape")
-        out["remove" + part.capitalize() + "Mask"] = rust_int(m.group(1))
-    # update
-    b = fn_body(impl, "update")
-    arms = match_arms(b)
-    seen = set()
-    for pat, expr in arms:
-        k = pat.split("::")[-1].strip()
-        e = re.sub(r"\s+", "", expr)
-        m = re.match(r"\(orig&(0b[01_]+)\)\|bopomofo\.index\(\)(?:\.shl\((\d+)\))?$", e)
-        if not m:
-            raise ExtractError(f"Syllable::update arm {k}: unexpected shape")
-        out["update" + k + "Mask"] = rust_int(m.group(1))
-        out["update" + k + "Shift"] = int(m.group(2) or 0)
-        seen.add(k)
-    if seen != {"Initial", "Medial", "Rime", "Tone"}:
-        raise ExtractError("Syllable::update: arms missing")
-    if not re.search(r"self\.value\s*=\s*NonZeroU16::new\(value\)\.unwrap\(\)", b):
-        raise ExtractError("Syllable::update: tail changed")
-    # pop: order of removal
-    b = re.sub(r"\s+", "", fn_body(impl, "pop"))
-    order = re.findall(r"ifself\.has_(\w+)\(\)\{returnself\.remove_(\w+)\(\);\}", b)
-    if [a for a, _ in order] != [c for _, c in order] or len(order) != 4 or not b.endswith("None"):
-        raise ExtractError("Syllable::pop: unexpected shape")
-    kinds = {"initial": 0, "medial": 1, "rime": 2, "tone": 3}
-    out_pop = [kinds[a] for a, _ in order]
-    # starts_with
-    b = re.sub(r"\s+", "", fn_body(impl, "starts_with"))
-    m = re.match(r"lettrailing_zeros=other\.to_u16\(\)\.trailing_zeros\(\);letmask=((?:iftrailing_zeros>=\d+\{\d+\}else)+)\{(\d+)\};"
-                 r"letself_prefix=self\.to_u16\(\)>>mask;letother_prefix=other\.to_u16\(\)>>mask;self_prefix==other_prefix$", b)
-    if not m:
-        raise ExtractError("Syllable::starts_with: unexpected shape")
-    thr = [(int(a), int(c)) for a, c in re.findall(r"iftrailing_zeros>=(\d+)\{(\d+)\}else", m.group(1))]
-    sw_default = int(m.group(2))
-    # builder
-    bimpl = block_after(src, r"impl\s+SyllableBuilder\s*\{")
-    nb = re.sub(r"\s+", "", fn_body(bimpl, "new"))
-    if nb != "SyllableBuilder{value:Syllable::EMPTY_PATTERN,step:0,}":
-        raise ExtractError("SyllableBuilder::new: unexpected shape")
-    ib = fn_body(bimpl, "insert")
-    barms = {}
-    # arms have block bodies: parse manually
-    mm = re.search(r"match\s+bopomofo\.kind\(\)\s*\{", ib)
-    if not mm:
-        raise ExtractError("SyllableBuilder::insert: match not found")
-    i = ib.find('{', mm.start())
-    mbody = ib[i + 1:balanced(ib, i) - 1]
-    pos = 0
-    while True:
-        m = re.search(r"BopomofoKind::(\w+)\s*=>\s*\{", mbody[pos:])
-        if not m:
-            break
-        k = m.group(1)
-        s = pos + m.end() - 1
-        e = balanced(mbody, s)
-        arm = re.sub(r"\s+", "", mbody[s + 1:e - 1])
-        pos = e
-        m2 = re.match(r"ifself\.value&(0b[01_]+)!=0\{returnErr\(BuildSyllableError::multiple_\w+\(\)\);\}"
-                      r"ifself\.step>(\d+)\{returnErr\(BuildSyllableError::incorrect_order\(\)\);\}"
-                      r"self\.step=(\d+);self\.value&=(0b[01_]+);self\.value\|=(.*);$", arm)
-        if not m2:
-            raise ExtractError(f"SyllableBuilder::insert arm {k}: unexpected shape")
-        val = m2.group(5)
-        m3 = re.match(r"\(bopomofoasu16([+-])(\d+)\)<<(\d+)$", val) or re.match(r"bopomofoasu16([+-])(\d+)()$", val)
-        if not m3:
-            raise ExtractError(f"SyllableBuilder::insert arm {k}: unexpected value expr {val}")
-        off = int(m3.group(2)) * (1 if m3.group(1) == '+' else -1)
-        barms[k] = dict(check=rust_int(m2.group(1)), maxStep=int(m2.group(2)), newStep=int(m2.group(3)),
-                        clear=rust_int(m2.group(4)), off=off, shift=int(m3.group(3) or 0))
-    if set(barms) != {"Initial", "Medial", "Rime", "Tone"}:
-        raise ExtractError("SyllableBuilder::insert: arms missing")
-
-    L = [HEADER.format(src="src/zhuyin/syllable.rs", h=sha(raw)), "namespace Chewing.Gen\n"]
-    for k, v in out.items():
-        L.append(f"def {k} : Nat := {v}")
-    L.append("\n/-- `Syllable::pop`: kinds in the order they are tried (0 initial … 3 tone). -/")
-    L.append(f"def popOrder : List Nat := {lean_list(map(str, out_pop))}")
-    L.append("\n/-- `Syllable::starts_with`: (threshold on trailing zeros, shift) in test order, then the default shift. -/")
-    L.append(f"def startsWithSteps : List (Nat × Nat) := {lean_list([f'({a}, {c})' for a, c in thr])}")
-    L.append(f"def startsWithDefault : Nat := {sw_default}")
-    L.append("\n/-- `SyllableBuilder::insert`, per kind (index 0 initial … 3 tone):\n"
-             "    (duplicate-check mask, max step allowed, new step, clear mask, offset added to the discriminant, shift). -/")
-    rows = []
-    for k in ("Initial", "Medial", "Rime", "Tone"):
-        a = barms[k]
-        rows.append(f"({a['check']}, {a['maxStep']}, {a['newStep']}, {a['clear']}, ({a['off']} : Int), {a['shift']})")
-    L.append(f"def builderArms : List (Nat × Nat × Nat × Nat × Int × Nat) := {lean_list(rows, 1)}")
-    L.append("\nend Chewing.Gen\n")
-    return {"SyllableBits.lean": "\n".join(L)}
-
-
-EXTRACTORS = {
-    "bopomofo": x_bopomofo,
-    "syllable": x_syllable,
-}
+for path in sorted(glob.glob(os.path.join(HERE, "extractors", "*.py"))):
+    spec = importlib.util.spec_from_file_location("extractors_" + os.path.basename(path)[:-3], path)
+    mod = importlib.util.module_from_spec(spec)
+    spec.loader.exec_module(mod)
 
 
 def main():
-    only = sys.argv[1:] or list(EXTRACTORS)
+    only = sys.argv[1:] or sorted(EXTRACTORS)
     os.makedirs(OUT, exist_ok=True)
-    status_path = os.path.join(OUT, "status.json")
+    status_path = os.path.join(HERE, "..", "run", "extract-status.json")
+    os.makedirs(os.path.dirname(status_path), exist_ok=True)
     try:
         with open(status_path) as f:
             status = json.load(f)
